@@ -143,8 +143,11 @@ def decode(protocol, socketutil, config, data, frags, limit):
 
 
 def msg_fields(msg):
-    return {"type": msg.type, "flags": msg.flags & ~(2 | 64), "seq": msg.seq, "ser": msg.serializer_id, "data": bytes(msg.data),
-            "ann": {k: bytes(v) for k, v in msg.annotations.items()}, "corr": bytes(msg.corr_id), "hascorr": bool(msg.flags & 64)}
+    def b(x):
+        # a decoder that leaves a field unset (None) has not decoded the message into "exactly those fields": make it differ
+        return bytes(x) if x is not None else b"\x00<field left unset by the decoder>"
+    return {"type": msg.type, "flags": msg.flags & ~(2 | 64), "seq": msg.seq, "ser": msg.serializer_id, "data": b(msg.data),
+            "ann": {k: b(v) for k, v in (msg.annotations or {}).items()}, "corr": b(msg.corr_id), "hascorr": bool(msg.flags & 64)}
 
 
 def reencode_same(protocol, socketutil, config, msg):
